@@ -110,6 +110,18 @@ def handleCluster (j impl : Json) : R (List (String × Json)) := do
   let mut models : List Json := []
   let mut nCommute := 0
   let mut nParking := 0
+  -- the timing entries of the WRITTEN tours (with commuting and parking) add up to the duration
+  let mut bad : List Json := []
+  for tj in tours do
+    let st := fldD tj "statistic" Json.null
+    let g (k : String) : Int := ((st.getObjVal? k).toOption.bind (fun v => v.getInt?.toOption)).getD 0
+    let cs : CStat := ⟨⟨g "cost", g "distance", g "duration", g "driving", g "serving", g "waiting", g "break"⟩, g "commuting", g "parking"⟩
+    let gap := clusterSplitGap cs
+    if gap != 0 then
+      let stops := ((fldD tj "stops" Json.null).getArr?.toOption.getD #[]).toList
+      let parkings := (stops.filter (fun s => (s.getObjVal? "parking").isOk)).length
+      bad := Json.mkObj [("vehicleId", fldD tj "vehicleId" Json.null), ("gap", jInt gap), ("parking_time", jInt pk),
+                         ("parking_stops", jNat parkings), ("waiting", jInt (g "waiting"))] :: bad
   for rj in routes do
     let parsed : R (Veh × List CAct) := do pure (← parseVeh (← fld rj "veh"), ← listF parseCAct rj "acts")
     match parsed with
@@ -125,8 +137,9 @@ def handleCluster (j impl : Json) : R (List (String × Json)) := do
              ("commuting", jInt st.commuting), ("parking", jInt st.parking)])] :: models
       | none => models := Json.null :: models
   return [("model", Json.mkObj [("tours", Json.arr models.reverse.toArray)]),
-          ("oracle", Json.mkObj [("one_tour_per_route", Json.bool (routes.length == tours.length))]),
-          ("info", Json.mkObj [("bad", Json.arr #[]), ("routes", jNat routes.length), ("cluster_routes", jNat routes.length),
+          ("oracle", Json.mkObj [("one_tour_per_route", Json.bool (routes.length == tours.length)),
+                                 ("timing_entries_with_commuting_and_parking_add_up_to_the_duration", Json.bool bad.isEmpty)]),
+          ("info", Json.mkObj [("bad", Json.arr bad.reverse.toArray), ("routes", jNat routes.length), ("cluster_routes", jNat routes.length),
                                ("commute_activities", jNat nCommute), ("parking_stops", jNat nParking), ("activities", jNat 4)])]
 
 def parseBAct (j : Json) : R BAct := do
